@@ -78,8 +78,10 @@ def gen_prim_case(g, cid):
     pc.default = None
     if not pc.catch_all:
         pc.default = dict(mode=r.choice(["probe", "panic", "err"]), k=g.mark())
-    if pc.prim in ("u8", "i8") and False:
-        pass
+    # the variant the default case designates may be an S-only #[ghost({..})] variant without literal / pattern; with a diverging
+    # default case a trailing #[ghost({..})] variant may follow the arms (the `_ =>` case must not depend on which variant is declared last)
+    pc.dflt_ghost = g.chance(0.5)
+    pc.tail_ghost = pc.default is not None and pc.default["mode"] != "probe" and g.chance(0.35)
     return pc
 
 
@@ -172,15 +174,21 @@ def render_case(pc, g):
         it.variants.append(Variant("Other", "tuple", [Field(None, payload_ty, fa)], va))
     if pc.default and pc.default["mode"] == "probe":
         # the variant the default case designates; it is never produced by an arm
-        it.variants.append(Variant("Dflt", "unit", [], [Instr("literal", "literal", container=None, tokens=litsrc(pc, unused_value(pc)))] if True else []))
+        if pc.dflt_ghost:
+            it.variants.append(Variant("Dflt", "unit", [], [Instr("ghost", "ghost", container=None, action=litsrc(pc, unused_value(pc)), braced=True)]))
+        else:
+            it.variants.append(Variant("Dflt", "unit", [], [Instr("literal", "literal", container=None, tokens=litsrc(pc, unused_value(pc)))]))
         into_vals["Dflt"] = litsrc(pc, unused_value(pc))
+    if pc.tail_ghost:
+        it.variants.append(Variant("Gh", "unit", [], [Instr("ghost", "ghost", container=None, action=litsrc(pc, unused_value(pc)), braced=True)]))
+        into_vals["Gh"] = litsrc(pc, unused_value(pc))
     derive_src = it.render(derive="#[derive(Clone, Debug, PartialEq, o2o::o2o)]")
     L = [PRELUDE, "pub type StaticStr = &'static str;", derive_src, ""]
     # reference: first matching arm in declaration order
     chain = []
     for a in pc.arms:
         chain.append(f"if {cond_src(pc, a, 'v')} {{ return {'Ok(' if fal else ''}S::{a.vname}{')' if fal else ''}; }}")
-    if pc.default and pc.default["mode"] == "probe":
+    if pc.default and pc.default["mode"] == "probe" and not pc.dflt_ghost:
         chain.append(f"if v == {litsrc(pc, unused_value(pc))} {{ return {'Ok(' if fal else ''}S::Dflt{')' if fal else ''}; }}")
     if pc.catch_all:
         tail = f"{'Ok(' if fal else ''}S::Other(v){')' if fal else ''}"
@@ -286,8 +294,19 @@ def gen_two_prim_case(g, cid):
             b = r.randint(-1000, 1000)
         used32.add(b)
         form = r.choice(["default_first", "dedicated_first", "both_dedicated", "both_dedicated_rev"])
-        pc.variants.append(dict(name=f"V{i}", u8=a, i32=b, form=form))
+        pc.variants.append(dict(name=f"V{i}", u8=a, i32=b, form=form, w8=0, w32=0))
         pc.arms.append(Arm(f"V{i}", "lit", a))
+    # From-only flavour with ranges: default and dedicated #[pattern]s on the same variant
+    pc.pats = g.chance(0.45)
+    if pc.pats:
+        pc.into = False
+        for v in pc.variants:
+            if g.chance(0.7):
+                v["w8"] = r.randint(1, 12)
+                v["w32"] = r.randint(1, 12)
+                v["u8"] = min(v["u8"], 255 - v["w8"])
+                if g.chance(0.6):
+                    v["i32"] = r.randint(0, 200)     # the default (i32) range would also type-check as u8
     return pc
 
 
@@ -298,11 +317,16 @@ def render_two_prim_case(pc, g):
     d = pc.default
     dflt = [("default", f'=> panic!("d{d["k"]}")')]
     for P in ("u8", "i32"):
-        nm = g.pick(["map_owned", "map_owned"])
+        nm = "map_owned" if pc.into else "from_owned"
         it.attrs.append(Instr(FALLIBLE_NAME[nm] if fal else nm, "trait", ty=P, hint=None, err="Er" if fal else None, params=dflt))
     for v in pc.variants:
         # the default literal is the i32 one; the u8 counterpart has a dedicated literal
-        if v["form"] == "default_first":
+        if v["w8"]:
+            p8, p32 = f"{v['u8']}..={v['u8'] + v['w8']}", f"{lit(v['i32'], 'i32')}..={lit(v['i32'] + v['w32'], 'i32')}"
+            mk = lambda c, t: Instr("pattern", "pattern", container=c, tokens=t)
+            attrs = {"default_first": [mk(None, p32), mk("u8", p8)], "dedicated_first": [mk("u8", p8), mk(None, p32)],
+                     "both_dedicated": [mk("u8", p8), mk("i32", p32)], "both_dedicated_rev": [mk("i32", p32), mk("u8", p8)]}[v["form"]]
+        elif v["form"] == "default_first":
             attrs = [Instr("literal", "literal", container=None, tokens=lit(v["i32"], "i32")), Instr("literal", "literal", container="u8", tokens=str(v["u8"]))]
         elif v["form"] == "dedicated_first":
             attrs = [Instr("literal", "literal", container="u8", tokens=str(v["u8"])), Instr("literal", "literal", container=None, tokens=lit(v["i32"], "i32"))]
@@ -314,20 +338,25 @@ def render_two_prim_case(pc, g):
     derive_src = it.render(derive="#[derive(Clone, Debug, PartialEq, o2o::o2o)]")
     L = [PRELUDE, derive_src, ""]
     for P in ("u8", "i32"):
-        chain = " ".join(f"if v == {lit(v[P], P)} {{ return {'Ok(' if fal else ''}S::{v['name']}{')' if fal else ''}; }}" for v in pc.variants)
+        W = {"u8": "w8", "i32": "w32"}[P]
+        chain = " ".join(f"if v >= {lit(v[P], P)} && v <= {lit(v[P] + v[W], P)} {{ return {'Ok(' if fal else ''}S::{v['name']}{')' if fal else ''}; }}" for v in pc.variants)
         L.append(f"#[allow(unreachable_code)] fn ref_from_{P}(v: {P}) -> {'Result<S, Er>' if fal else 'S'} {{ {chain} panic!(\"d{d['k']}\") }}")
-        L.append(f"fn ref_into_{P}(s: &S) -> {P} {{ match s {{ " + " ".join(f"S::{v['name']} => {lit(v[P], P)}," for v in pc.variants) + " } }")
+        if pc.into:
+            L.append(f"fn ref_into_{P}(s: &S) -> {P} {{ match s {{ " + " ".join(f"S::{v['name']} => {lit(v[P], P)}," for v in pc.variants) + " } }")
     tag = f"c{pc.cid}{'f' if fal else 'i'}"
     pre = "try_" if fal else ""
     D = ["pub fn run(log: &mut crate::rt::Log) {"]
     D.append("    let v8: Vec<u8> = (u8::MIN..=u8::MAX).collect();")
-    pts = sorted({x for v in pc.variants for x in (v["i32"] - 1, v["i32"], v["i32"] + 1)} | {v["u8"] for v in pc.variants})
+    pts = sorted({x for v in pc.variants for x in (v["i32"] - 1, v["i32"], v["i32"] + 1, v["i32"] + v["w32"], v["i32"] + v["w32"] + 1)} | {v["u8"] for v in pc.variants} | {v["u8"] + v["w8"] for v in pc.variants})
     D.append("    let v32: Vec<i32> = vec![" + ", ".join(lit(x, "i32") for x in pts) + "];")
     for P, vec in (("u8", "v8"), ("i32", "v32")):
         frm = f"<S as TryFrom<{P}>>::try_from(v)" if fal else f"<S as From<{P}>>::from(v)"
         D.append(f"    for (d, v) in {vec}.iter().enumerate() {{ let v = *v;")
         D.append(f'        log.ev("{tag}", "{pre}from_owned:{P}", d, &format!("{{:?}}", v), &crate::rt::guard(|| {frm}), &crate::rt::guard(|| ref_from_{P}(v)));')
         D.append("    }")
+    if not pc.into:
+        D.append("}")
+        return "\n".join(L + D) + "\n", derive_src
     D.append("    let ss: Vec<S> = vec![" + ", ".join(f"S::{v['name']}" for v in pc.variants) + "];")
     D.append("    for (d, s) in ss.iter().enumerate() {")
     for P in ("u8", "i32"):
